@@ -815,5 +815,99 @@ class GeneratedSaltTrees(Part):
         return res
 
 
+_AS_RUN = r'''
+import io, json, sys, logging
+logging.disable(logging.CRITICAL)
+from netconan.anonymize_files import FileAnonymizer
+job = json.loads(sys.stdin.read())
+out = []
+for salt in job["salts"]:
+    fa = FileAnonymizer(anon_pwd=False, anon_ip=False, salt=salt, as_numbers=list(job["asns"]))
+    o = io.StringIO()
+    fa.anonymize_io(io.StringIO(job["text"]), o)
+    out.append(o.getvalue())
+print(json.dumps([out, list(set(job["asns"]))]))
+'''
+
+
+def colliding_as_numbers(salt, lo=64512, hi=65535):
+    """Pairs of numbers of one block whose replacements coincide, read off the implementation (one number per list)."""
+    from netconan.sensitive_item_removal import AsNumberAnonymizer, anonymize_as_numbers
+
+    by_image = {}
+    with seams.capture_logs():
+        for n in range(lo, hi + 1):
+            a = AsNumberAnonymizer([str(n)], salt)
+            img = anonymize_as_numbers(a, str(n))
+            by_image.setdefault(img, []).append(str(n))
+    return [v for v in by_image.values() if len(v) > 1]
+
+
+class AsListsUnderHashSeeds(Part):
+    name = "as_number_lists_under_hash_seeds"
+    desc = ("AS-number lists that would make a set-ordered construction visible - numbers of one block whose replacements "
+            "coincide (found by scanning the private block with the implementation), duplicates, numbers that are prefixes "
+            "of each other, a long list - in fresh interpreters under hash seeds realising different set orders: same output")
+
+    SALTS = ["saltForTest", "C13salt"]
+
+    def __init__(self, tier, seed):
+        self.tier, self.seed = tier, seed
+
+    def cases(self):
+        return [{"kind": k} for k in ("colliding", "colliding-triple-or-more", "duplicates", "prefixes", "long")]
+
+    def run(self, case):
+        res = Res()
+        kind = case["kind"]
+        if kind.startswith("colliding"):
+            groups = []
+            for salt in self.SALTS:
+                g = colliding_as_numbers(salt)
+                res.count("colliding_groups_found", len(g))
+                g.sort(key=lambda v: (-len(v), v))
+                groups += g[:3] if kind == "colliding" else [x for x in g if len(x) > 2][:2]
+            asns = list(dict.fromkeys(n for g in groups for n in g))
+        elif kind == "duplicates":
+            asns = ["65001", "12", "65001", "64512", "12", "65535", "64512"]
+        elif kind == "prefixes":
+            asns = ["6500", "65000", "650", "65", "650001", "4200000000", "42", "420"]
+        else:
+            asns = [str(64512 + 13 * i) for i in range(60)] + [str(100 + 7 * i) for i in range(40)]
+        if not asns:
+            return res
+        text = "".join("router bgp %s\n neighbor 10.0.0.1 remote-as %s\n" % (n, n) for n in dict.fromkeys(asns))
+        job = json.dumps({"salts": self.SALTS, "asns": asns, "text": text})
+        base, orders = None, {}
+        seeds = case.get("seeds") or list(range(0, 24))
+        for s in seeds:
+            cp = seams.run_py(_AS_RUN, hashseed=s, stdin=job)
+            res.evals += 1
+            res.traces += 1
+            if cp.returncode != 0:
+                res.violation("process-failed-under-seed", "seed %d: %s" % (s, cp.stderr[-400:]), case)
+                continue
+            outs, order = json.loads(cp.stdout.strip().splitlines()[-1])
+            orders.setdefault(tuple(order), s)
+            res.nt((kind, s))
+            res.out(outs)
+            if base is None:
+                base = (s, outs)
+            elif outs != base[1]:
+                k = [i for i in range(len(outs)) if outs[i] != base[1][i]][0]
+                la, lb = outs[k].split("\n"), base[1][k].split("\n")
+                li = [i for i, (a, b) in enumerate(zip(la, lb)) if a != b][0]
+                res.violation("output-depends-on-hash-seed|as-numbers|" + kind,
+                              "list %r salt %r: PYTHONHASHSEED=%d gives %r, PYTHONHASHSEED=%d gives %r (input line %r)" % (
+                                  asns[:8], self.SALTS[k], s, la[li], base[0], lb[li], text.split("\n")[li]),
+                              dict(case, seeds=[base[0], s]))
+                break
+        res.count("set_orders_realised", len(orders))
+        res.states = len(orders)
+        if "seeds" not in case:
+            res.samples.append({"kind": kind, "list": asns[:10], "hash_seeds": len(seeds), "set_orders": len(orders)})
+        return res
+
+
 def parts(tier, seed):
-    return [Repetition(tier, seed), HashSeeds(tier, seed), History(tier, seed), GeneratedSalt(tier, seed), Leftovers(tier, seed), Clock(tier, seed), Schedules(tier, seed), GeneratedSaltTrees(tier, seed)]
+    return [Repetition(tier, seed), HashSeeds(tier, seed), History(tier, seed), GeneratedSalt(tier, seed), Leftovers(tier, seed), Clock(tier, seed), Schedules(tier, seed), GeneratedSaltTrees(tier, seed), AsListsUnderHashSeeds(tier, seed)]
